@@ -285,7 +285,7 @@ def run(ctx):
     import pyunicorn.core.interacting_networks as IN
     rng = ctx.rng
     quick = ctx.tier == "quick"
-    scale = 1 if quick else 8
+    scale = 2 if quick else 20
     ctx.rule = ("case = (operation, level, input network / partition / distance matrix / tolerance / "
                 "parameters, recorded draw stream); distinct = distinct canonical encodings; "
                 "non-trivial = at least one rewiring / link placement actually happened "
@@ -356,7 +356,7 @@ def run(ctx):
         return (f"{tag} {MODES[mode]} {n} {enc_mat(A0)} {enc_mat(D)} {eps} {enc_vec(deg)} "
                 f"{enc_mat(edges0)} {iterations} {enc_mat(draws)}")
 
-    n_geo = (70 if quick else 600)
+    n_geo = (250 if quick else 2500)
     for _ in range(n_geo):
         n, A, D, eps, mode = geo_case("kernel")
         A = A.astype(ADJ)
@@ -411,7 +411,7 @@ def run(ctx):
     # 2. geographical rewiring through SpatialNetwork
     # ------------------------------------------------------------------
     reqs, impl = [], []
-    for _ in range(25 if quick else 250):
+    for _ in range(80 if quick else 800):
         for _try in range(12):
             n, A, D, eps, mode = geo_case("method")
             if A.sum() == 0:
@@ -502,7 +502,7 @@ def run(ctx):
         return sup, state
 
     reqs, impl = [], []
-    for _ in range(60 if quick else 500):
+    for _ in range(150 if quick else 1500):
         n = rng.choice([4, 5, 6, 7, 8, 9, 10, 11])
         gk, A = structured_graph(rng, n)
         if rng.random() < 0.5:
@@ -581,7 +581,8 @@ def run(ctx):
 
         # ---- public methods (the kernel arguments are observed by a spy)
         net = InteractingNetworks(adjacency=A0, directed=False, silence_level=3)
-        for variant in ("number", "density", "null", "toomany", "sparse-number", "rewire"):
+        for variant in ("number", "density", "null", "toomany", "sparse-number", "sparse-density",
+                        "sparse-null", "sparse-toomany", "rewire"):
             seen = {}
             if variant == "rewire":
                 Lc = int(A0[np.ix_(n1, n2)].sum())
@@ -628,13 +629,14 @@ def run(ctx):
             # ---- RandomlySetCrossLinks(_sparse)
             Lc = int(A0[np.ix_(n1, n2)].sum())
             kw, expect = {}, None
-            if variant in ("number", "sparse-number"):
+            base = variant.replace("sparse-", "")
+            if base == "number":
                 kk = rng.randrange(0, m1 * m2 + 1)
                 kw, expect = {"number_cross_links": kk}, kk
-            elif variant == "density":
+            elif base == "density":
                 dens = rng.choice([0.0, 0.25, 0.5, 0.75, 1.0])
                 kw, expect = {"cross_link_density": dens}, int(Fraction(dens) * m1 * m2)
-            elif variant == "null":
+            elif base == "null":
                 kw, expect = {}, Lc
             else:
                 kw, expect = {"number_cross_links": m1 * m2 + rng.randrange(1, 4)}, Lc
@@ -704,7 +706,7 @@ def run(ctx):
     # 4. Barabasi-Albert (own implementation)
     # ------------------------------------------------------------------
     reqs, impl = [], []
-    for c in range(40 if quick else 400):
+    for c in range(150 if quick else 1500):
         m = rng.choice([1, 1, 2, 2, 3, 4])
         N = m + 1 + rng.choice([0, 1, 2, 3, 5, 8, 12])
         natural = rng.random() < 0.3
